@@ -53,6 +53,7 @@ type Case struct {
 	Kind string `json:"kind"` // idp | fresh | spmeta | tamper
 
 	KDs     []KD    `json:"kds,omitempty"`
+	Lead    int     `json:"lead,omitempty"` // number of SPSSODescriptors without POST ACS and without keys placed before the one that holds the ACS and the keys
 	Session Session `json:"session,omitempty"`
 	Method  string  `json:"method,omitempty"` // POST | GET | initiated
 
@@ -91,7 +92,14 @@ func certText(k KD) (string, bool) {
 	return "", false // none
 }
 
-func metadata(kds []KD) *saml.EntityDescriptor {
+func metadata(kds []KD, lead ...int) *saml.EntityDescriptor {
+	var leading []saml.SPSSODescriptor
+	if len(lead) > 0 {
+		for i := 0; i < lead[0]; i++ {
+			// a role descriptor that cannot receive the response: artifact binding only, no keys
+			leading = append(leading, saml.SPSSODescriptor{AssertionConsumerServices: []saml.IndexedEndpoint{{Binding: saml.HTTPArtifactBinding, Location: spkit.SPACS + "/artifact", Index: 7 + i}}})
+		}
+	}
 	d := saml.SPSSODescriptor{AssertionConsumerServices: []saml.IndexedEndpoint{{Binding: saml.HTTPPostBinding, Location: spkit.SPACS, Index: 1}}}
 	for _, k := range kds {
 		kd := saml.KeyDescriptor{Use: k.Use}
@@ -100,7 +108,7 @@ func metadata(kds []KD) *saml.EntityDescriptor {
 		}
 		d.KeyDescriptors = append(d.KeyDescriptors, kd)
 	}
-	md := &saml.EntityDescriptor{EntityID: spkit.SPEntity, SPSSODescriptors: []saml.SPSSODescriptor{d}}
+	md := &saml.EntityDescriptor{EntityID: spkit.SPEntity, SPSSODescriptors: append(leading, d)}
 	// the IdP sees what an XML round trip leaves of it, as a real registration would
 	buf, err := xml.Marshal(md)
 	if err != nil {
@@ -341,7 +349,11 @@ func checkIDP(c Case) pbt.Result {
 	} else {
 		res.Classes = append(res.Classes, "not-advertised")
 	}
-	r := emit(newIDP(metadata(c.KDs), c.Session), c.Method)
+	r := emit(newIDP(metadata(c.KDs, c.Lead), c.Session), c.Method)
+	if c.Lead > 0 {
+		res.Classes = append(res.Classes, "idp:several-role-descriptors")
+		res.NonTrivial = true
+	}
 	fail, _, _ := inspect(r, c.Session, adv, first)
 	if fail != "" {
 		res.Err = fmt.Sprintf("key descriptors %+v: %s", c.KDs, fail)
@@ -569,10 +581,25 @@ func checkTamper(c Case) pbt.Result {
 	case "attacker-encrypts-own-signed-claims-cert":
 		a.Sign = &forge.SignSpec{Key: "attacker", KeyInfo: "cert:idp"}
 		r.Sign = nil
+	case "attacker-encrypts-unsigned-fake-signature-foreign-ns", "attacker-encrypts-unsigned-fake-signature-no-ns", "attacker-encrypts-unsigned-empty-dsig-signature":
+		a.Sign = nil
+		r.Sign = nil
 	}
 	el, err := forge.ResponseElement(&r)
 	if err != nil {
 		return pbt.Result{Err: "harness: " + err.Error()}
+	}
+	switch c.Tamper {
+	case "attacker-encrypts-unsigned-fake-signature-foreign-ns":
+		f := etree.NewElement("ev:Signature")
+		f.CreateAttr("xmlns:ev", "urn:evil:namespace")
+		forge.PlaceSignature(el, f, c.Pos%2 == 1)
+	case "attacker-encrypts-unsigned-fake-signature-no-ns":
+		forge.PlaceSignature(el, etree.NewElement("Signature"), c.Pos%2 == 1)
+	case "attacker-encrypts-unsigned-empty-dsig-signature":
+		f := etree.NewElement("ds:Signature")
+		f.CreateAttr("xmlns:ds", forge.NSDsig)
+		forge.PlaceSignature(el, f, c.Pos%2 == 1)
 	}
 	edit := func(path string, f func(b []byte) []byte) {
 		if cv := el.FindElement(path); cv != nil {
@@ -657,7 +684,7 @@ func check(c Case) pbt.Result {
 // ---------------------------------------------------------------- generators
 
 var certClasses = []string{"rsa", "rsa", "rsa2", "ec", "empty", "blank", "notb64", "garbage", "none"}
-var tampers = []string{"none", "encrypted-to-other-key", "attacker-encrypts-unsigned", "attacker-encrypts-own-signed", "attacker-encrypts-own-signed-claims-cert", "flip-data-byte", "flip-data-byte", "truncate-data", "flip-key-byte", "empty-data", "swap-blocks"}
+var tampers = []string{"none", "encrypted-to-other-key", "attacker-encrypts-unsigned", "attacker-encrypts-unsigned-fake-signature-foreign-ns", "attacker-encrypts-unsigned-fake-signature-no-ns", "attacker-encrypts-unsigned-empty-dsig-signature", "attacker-encrypts-own-signed", "attacker-encrypts-own-signed-claims-cert", "flip-data-byte", "flip-data-byte", "truncate-data", "flip-key-byte", "empty-data", "swap-blocks"}
 
 func genSession(t *rapid.T) Session {
 	txt := func(label string) string {
@@ -686,7 +713,7 @@ func gen(t *rapid.T) Case {
 	switch rapid.IntRange(0, 9).Draw(t, "kind") {
 	case 0, 1, 2, 3:
 		n := rapid.IntRange(0, 4).Draw(t, "nkd")
-		c := Case{Kind: "idp", Session: sanitize(genSession(t)), Method: rapid.SampledFrom([]string{"POST", "GET", "initiated"}).Draw(t, "method")}
+		c := Case{Kind: "idp", Session: sanitize(genSession(t)), Method: rapid.SampledFrom([]string{"POST", "GET", "initiated"}).Draw(t, "method"), Lead: rapid.SampledFrom([]int{0, 0, 1, 2}).Draw(t, "lead")}
 		for i := 0; i < n; i++ {
 			c.KDs = append(c.KDs, KD{Use: rapid.SampledFrom([]string{"encryption", "encryption", "", "signing"}).Draw(t, "use"), Cert: rapid.SampledFrom(certClasses).Draw(t, "cert")})
 		}
@@ -722,6 +749,9 @@ func enumLayouts(tier string, emit func(Case)) {
 	for _, a := range all {
 		emit(Case{Kind: "idp", Session: s, Method: "POST", KDs: []KD{a}})
 		emit(Case{Kind: "idp", Session: s, Method: "initiated", KDs: []KD{a}})
+		for _, m := range []string{"POST", "GET", "initiated"} {
+			emit(Case{Kind: "idp", Session: s, Method: m, KDs: []KD{a}, Lead: 1})
+		}
 		for _, b := range all {
 			emit(Case{Kind: "idp", Session: s, Method: "POST", KDs: []KD{a, b}})
 			if tier == "thorough" {
